@@ -129,9 +129,17 @@ class _UnionNormType(_BasicNormType):
             return f"{[self._make_orderable(element) for element in obj]}"
         return repr(obj)  # str() does not distinguish Literal["1"] and Literal[1]
 
+    # different objects can have the same text (classes made by a factory, type vars of different modules)
+    def _make_tiebreaker(self, obj: object) -> tuple:
+        if isinstance(obj, BaseNormType):
+            return (id(obj.origin), *(self._make_tiebreaker(arg) for arg in obj.args))
+        if isinstance(obj, tuple):
+            return tuple(self._make_tiebreaker(element) for element in obj)
+        return (id(type(obj)), )
+
     def _order_args(self, args: VarTuple[BaseNormType]) -> VarTuple[BaseNormType]:
         args_list = list(args)
-        args_list.sort(key=self._make_orderable)
+        args_list.sort(key=lambda arg: (self._make_orderable(arg), self._make_tiebreaker(arg)))
         return tuple(args_list)
 
 
@@ -156,7 +164,8 @@ class _LiteralNormType(_BasicNormType):
 
     def _order_args(self, args: VarTuple[LiteralArg]) -> VarTuple[LiteralArg]:
         args_list = list(args)
-        args_list.sort(key=self._make_orderable)
+        # text of enum class does not contain a module, so id of class is used as tiebreaker
+        args_list.sort(key=lambda arg: (self._make_orderable(arg), id(type(arg))))
         return tuple(args_list)
 
     def __eq__(self, other):
